@@ -69,7 +69,8 @@ LLC::LLC(const uint8_t* buffer, uint32_t total_sz) {
 		// TODO: Create information fields if corresponding.
 	}
 	else {
-		type((Format)(*stream.pointer() & 0x03));
+		// Bit 0 clear means information format (bit 1 belongs to N(S))
+		type((*stream.pointer() & 0x01) ? LLC::SUPERVISORY : LLC::INFORMATION);
 		control_field_length_ = 2;
 		stream.read(control_field.info);
 	}
